@@ -7,7 +7,7 @@ func mainUnit(files []string, hs ...Harness) Unit {
 func init() {
 	register(Check{
 		ID: "C18", Title: "evy fmt never damages a source file and --check tells the truth", Level: "model_checking",
-		Units: []Unit{mainUnit([]string{"main/c18.go"},
+		Units: []Unit{mainUnit([]string{"main/c18.go", "main/c18native.go"},
 			Harness{Fn: "ZZC18Write", Quick: p("K", 8), Thorough: p("K", 10), Expect: []string{"clean-run", "unparsable", "fault", "killed", "witness:end"}},
 			Harness{Fn: "ZZC18Check", Expect: []string{"witness:end"}},
 		)},
